@@ -181,7 +181,7 @@ def run_impl(inst):
     return run_on_readset(inst, rs, ids, names)
 
 
-def run_on_readset(inst, rs, ids, names, first=False):
+def run_on_readset(inst, rs, ids, names, first=False, cost_only=False):
     from whatshap.core import Pedigree, PedigreeDPTable, Genotype, PhredGenotypeLikelihoods
     order = [int(rd.name[4:]) for rd in rs]
     ped = Pedigree(ids)
@@ -209,6 +209,8 @@ def run_on_readset(inst, rs, ids, names, first=False):
     raw = readset_raw(rs, {ids[names[i]]: i for i in range(inst["nind"])}, positions, inst)
     try:
         dp = PedigreeDPTable(rs, inst["recomb"], ped, distrust, positions)
+        if cost_only:
+            return {"cost": dp.get_optimal_cost(), "order": order, "raw": raw}
         superreads, tv = dp.get_super_reads()
         cost = dp.get_optimal_cost()
         part = dp.get_optimal_partitioning()
@@ -221,6 +223,64 @@ def run_on_readset(inst, rs, ids, names, first=False):
         a, b = list(superreads[i])
         sr.append([[(v.position // 10 - 1, v.allele) for v in a], [(v.position // 10 - 1, v.allele) for v in b]])
     return {"cost": cost, "partition": part, "tau": list(tv), "superreads": sr, "order": order, "raw": raw}
+
+
+def gen_big(rng):
+    """an instance whose cost sums lie around 2^32 (both sides): weights, and sometimes recombination costs, of a
+    small/medium instance are scaled so that the no-overflow bound `ubAll` lands in [0.2, 2.5] * 2^32.  Genotype
+    costs stay small (a `double` beyond UINT_MAX converted to `unsigned int` is undefined behaviour)."""
+    if rng.random() < 0.4:
+        # forced errors: homozygous trusted genotypes and reads carrying the other allele, so that the OPTIMUM itself
+        # (not only the bound) is huge: optimum = sum of the weights of the disagreeing entries
+        ncols = rng.randrange(1, 4)
+        target = int((2 ** 32) * rng.choice([0.4, 0.55, 0.8, 0.99, 1.0, 1.01, 1.3, 2.2]))
+        hom = [rng.choice([0, 2]) for _ in range(ncols)]
+        reads = []
+        for _ in range(rng.randrange(2, 7)):
+            first = rng.randrange(ncols); last = rng.randrange(first, ncols)
+            reads.append({"ind": 0, "first": first, "last": last,
+                          "entries": [[c, rng.choice([0, 1]), 1] for c in range(first, last + 1)]})
+        reads.sort(key=lambda r: r["first"])
+        bad = [e for r in reads for e in r["entries"] if e[1] != hom[e[0]] // 2]
+        for e in bad:
+            e[2] = min(max(1, target // len(bad)) + rng.choice([0, 0, 1]), 2 ** 31 - 1)
+        for r in reads:
+            for e in r["entries"]:
+                if e not in bad:
+                    e[2] = rng.choice([1, 30, 2 ** 20, 2 ** 30])
+        return {"ncols": ncols, "reads": reads, "nind": 1, "trios": [],
+                "geno": [[[0 if k == hom[c] else None for k in range(3)] for c in range(ncols)]],
+                "recomb": [0] * ncols, "mode": "trusted", "use_positions": True}
+    inst = gen_instance(rng, small=rng.random() < 0.5)
+    inst.pop("offgrid", None); inst.pop("reuse", None)
+    inst["use_positions"] = True
+    tot = sum(e[2] for r in inst["reads"] for e in r["entries"]) or 1
+    target = int((2 ** 32) * rng.choice([0.2, 0.6, 0.9, 0.99, 1.0, 1.01, 1.2, 2.5]))
+    share = rng.choice([1.0, 1.0, 0.7, 0.3]) if inst["trios"] else 1.0
+    f = max(1, int(target * share) // tot)
+    for r in inst["reads"]:
+        for e in r["entries"]:
+            e[2] = min(e[2] * f + rng.choice([0, 0, 1, 7]), 2 ** 31 - 1)     # Read.add_variant takes a C int
+    if inst["trios"] and share < 1.0:
+        rtot = 2 * len(inst["trios"]) * (sum(inst["recomb"]) or 1)
+        g = max(1, int(target * (1 - share)) // rtot)
+        inst["recomb"] = [min(x * g, 2 ** 32 - 1) for x in inst["recomb"]]
+    return inst
+
+
+def run_cost_only(inst):
+    """constructor + get_optimal_cost only (no backtrace results are read)"""
+    from whatshap.core import Read, ReadSet, NumericSampleIds
+    ids = NumericSampleIds()
+    names = [f"ind{i}" for i in range(inst["nind"])]
+    rs = ReadSet()
+    for k, r in enumerate(inst["reads"]):
+        rd = Read(f"read{k:04d}", 50, 0, ids[names[r["ind"]]])
+        for c, a, w in r["entries"]:
+            rd.add_variant((c + 1) * 10, a, w)
+        rs.add(rd)
+    rs.sort()
+    return run_on_readset(inst, rs, ids, names, cost_only=True)
 
 
 def readset_raw(rs, ind_of, positions, inst):
@@ -539,6 +599,49 @@ def run(ctx):
              (msg is not None and a.get("inst") is None and REJECT_MESSAGES.get(why, "\0") in msg and py_mkinst(raw) is None)
         if not ok:
             ctx.disagree("c01.mkinst(rejection)", {"raw": raw}, msg or "accepted", a if msg is None else why)
+
+    # ---- 32-bit arithmetic: cost sums around 2^32.  Below the bound `ubAll < UINT_MAX` (theorem `no_overflow`) the
+    # real cost must be the exact optimum; everywhere it must be what the wrap-around model `dpCost32`/`throws32` says
+    big = []
+    for _ in range((150 if ctx.quick else 3000) * ctx.scale):
+        inst = gen_big(rng)
+        ctx.inflight({"instance": {**model_inst(inst), "mode": inst["mode"], "use_positions": True}, "stream": "u32"})
+        impl = run_cost_only(inst)
+        big.append((reorder(inst, impl["order"]), impl))
+    breqs = []
+    for inst, impl in big:
+        breqs.append({"op": "c01.cost32", "raw": impl["raw"]})
+        breqs.append({"op": "c01.cost", "raw": impl["raw"]})
+    bans = ask_bounded(ctx.model, breqs)
+    for n, (inst, impl) in enumerate(big):
+        a32, aex = bans[2 * n], bans[2 * n + 1]
+        ctx.evaluated()
+        case = {"instance": {**model_inst(inst), "mode": inst["mode"], "use_positions": True}, "stream": "u32"}
+        got = "mendelian-conflict" if "error" in impl else impl["cost"]
+        if isinstance(got, int) and got < 0:
+            # F30: `get_optimal_score()` returns `unsigned int`, cpp.pxd declared it `int`
+            ctx.fail(f"get_optimal_cost() returned the negative number {got} (the optimum is {aex['cost']})", case,
+                     key="F30-cost-reported-negative")
+            got %= 2 ** 32            # the C++ value, for the comparisons below
+        want32 = "mendelian-conflict" if a32["throws"] else a32["cost32"]
+        exact = "mendelian-conflict" if aex["cost"] is None else aex["cost"]
+        safe = a32["ub"] < 2 ** 32 - 1
+        ctx.dist("u32_bound", "ubAll < UINT_MAX" if safe else "ubAll >= UINT_MAX")
+        if got != want32:
+            ctx.disagree("c01.cost32", case, got, a32)
+        if safe:
+            if want32 != exact:
+                ctx.disagree("c01.cost32(no_overflow: 32-bit model vs unbounded model below the bound)", case, exact, a32)
+            if got != exact:
+                ctx.fail(f"cost sums stay below UINT_MAX (bound {a32['ub']}) but the reported result {got} is not the "
+                         f"optimum {exact}", case, key="not-optimal")
+            ctx.validated()
+        elif got != exact:
+            ctx.dist("u32_beyond_bound", "wrapped (result differs from the optimum)")
+            ctx.observe("32-bit overflow beyond the proved bound: solver result differs from the true optimum "
+                        "(as the wrap-around model predicts)")
+        else:
+            ctx.dist("u32_beyond_bound", "still exact")
 
     # ---- table-based column cost == direct column cost (the incremental table of the code)
     tab_reqs, tab_meta = [], []
